@@ -9,7 +9,7 @@ ENGINES = [
      'kind_free_text': 'z3 formula of the reference trace semantics generated from real HplProperty objects over a symbolic timed trace; Python evaluator for replay'},
     {'name': 'SX', 'path': 'vf/sx.py, vf/harness/', 'serves_properties': ['C08', 'C11', 'C14'],
      'kind_free_text': 'CrossHair symbolic execution of harness functions that drive the real hpl code with symbolic literal values, valuations, widths, time bounds and metadata; one process per condition, reachability twin per harness'},
-    {'name': 'SF', 'path': 'vf/sf.py', 'serves_properties': ['C20'],
+    {'name': 'SF', 'path': 'vf/sf.py', 'serves_properties': ['C20', 'C16', 'C03', 'C04', 'C05'],
      'kind_free_text': 'decision-list symbolic executor running the real hpl.types.DataType function objects on z3 bit-vector proxies'},
 ]
 
@@ -95,6 +95,15 @@ CHECKS['C15'] = {
              'quantifier, probe and alias names are z3-backed proxies, under every feasible decision sequence, and must agree with oracles computed on the tree specs; iterate() is compared with a field-wise preorder.'),
     'note': 'Trusted: z3; the proxy str subclass (every path re-run with real str names); oracles in vf/checks/c15.py and vf/props.py.',
     'technique': 'symbolic execution of the real query methods on z3-backed name proxies (all feasible paths) vs statement oracle',
+}
+
+CHECKS['C16'] = {
+    'engine': 'SF+snapshots', 'category': 'other', 'design_ref': 'DESIGN.md 1 (SF), 4 (C16)',
+    'text': ('SF: 113 construction forms (every operator, set, range, access, quantifier, function; constructor and parser-callback routes), cast() and but() run on children whose '
+             'stored type set is a symbolic 7-bit term; z3 decides for ALL type sets that the children handed in are left unchanged (the constructor-level in-place narrowing is a recorded finding). '
+             'Deep-snapshot exploration of every API on every subtree and of call sequences up to 3 complements it.'),
+    'note': 'Trusted: z3, vf/sf.py explorer. The snapshot exploration is concrete execution (structure, stored types, metadata, hash compared before/after).',
+    'technique': 'symbolic type sets through the real constructors/cast/but (z3 validity per path) + snapshot comparison of API call sequences',
 }
 
 NOT_APPLICABLE = {}
